@@ -284,6 +284,35 @@ pub fn path_sets(tier: Tier) -> Vec<PathSet> {
         v.push(PathSet { name: "member steps over the key-order universe".into(), paths: mk(kp), docs: kdocs });
     }
     {
+        // member names that are keywords of the path language or literals
+        let kw = refmodel::gen::KEYWORD_KEYS;
+        let mut kd: Vec<RVal> = vec![];
+        for (i, k) in kw.iter().enumerate() {
+            let k2 = kw[(i + 1) % kw.len()];
+            kd.push(RVal::obj(vec![(k, RVal::u(1)), (k2, RVal::arr(vec![RVal::s("x"), RVal::Null]))]));
+            kd.push(RVal::Arr(vec![RVal::obj(vec![(k, RVal::obj(vec![(k2, RVal::Bool(true))]))]), RVal::s(k)]));
+        }
+        kd.push(RVal::Obj(kw.iter().enumerate().map(|(i, k)| (k.to_string(), RVal::u(i as u64))).collect()));
+        let kdocs: Arc<Vec<(RVal, Vec<u8>)>> = Arc::new(kd.into_iter().map(|x| { let b = enc(&x); (x, b) }).collect());
+        let mut kp = vec![];
+        for k in kw {
+            let simple = k.chars().all(|c| c.is_ascii_alphabetic());
+            let mut forms = vec![Step::ObjField(k.to_string())];
+            if simple {
+                forms.push(Step::Dot(k.to_string()));
+                forms.push(Step::Colon(k.to_string()));
+            }
+            for st in forms {
+                kp.push(JPath(vec![Step::Root, st.clone()]));
+                kp.push(JPath(vec![Step::Root, Step::BracketWild, st.clone()]));
+                kp.push(JPath(vec![Step::Root, Step::DotWild, Step::Filter(Box::new(Expr::Exists(vec![Step::Current, st.clone()])))]));
+                kp.push(JPath(vec![Step::Root, st.clone(), Step::Filter(Box::new(Expr::Cmp(Cmp::Eq, Box::new(Expr::Paths(vec![Step::Current])), Box::new(Expr::Lit(Lit::Num(refmodel::RNum::U(1)))))))]));
+                kp.push(JPath(vec![Step::Predicate(Box::new(Expr::Cmp(Cmp::Ge, Box::new(Expr::Paths(vec![Step::Root, st.clone()])), Box::new(Expr::Lit(Lit::Num(refmodel::RNum::U(1)))))))]));
+            }
+        }
+        v.push(PathSet { name: "member names that are keywords (last, to, exists, null, true, false, $, @)".into(), paths: mk(kp), docs: kdocs });
+    }
+    {
         // number literals of every representation and magnitude against number documents
         let nv: Vec<RVal> = crate::univ::num_variants(false);
         let mut nd: Vec<RVal> = vec![RVal::Arr(nv.clone()), RVal::Arr(vec![])];
